@@ -255,6 +255,10 @@ class CreateSnapshot(Transition):
     def to_ops(self, a):
         return [{'op': 'create_snapshot', 'subscription_name': a['sub_name'], 'name': a['snap_name']}]
 
+    def res_from_replay(self, results, args_c, out):
+        r = results[-1].get('result') or {}
+        return {'SnapshotID': replay.uuid_int(r['SnapshotID'])} if 'SnapshotID' in r else {}
+
 
 class DeadLetterSweep(DLBound, Transition):
     name = 'dead-letter-sweep'
